@@ -278,7 +278,19 @@ def run(ctx):
     for q in (f"{AC}.refresh", f"{AC}.apply", f"{AC}._apply_properties"):
         f = ctx.fn(q)
         fs = summarize(prog, f)
-        for lpn in [n for n in ast.walk(f.node) if isinstance(n, ast.For)]:
+        fors = [n for n in ast.walk(f.node) if isinstance(n, ast.For)]
+        # loops that only gather the responses into a list another loop then walks are judged through that other loop
+        gatherers = set()
+        for l2 in fors:
+            it2 = fs.ta.terms_at.get(l2.iter)
+            it2 = strip(it2) if it2 is not None else None
+            if it2 is not None and it2[0] == "loopvar" and collect_loop(fs, f, it2) is not None:
+                outer = next((l for l in fors if l.lineno == it2[2]), None)
+                if outer is not None:
+                    gatherers |= {n for n in ast.walk(outer) if isinstance(n, ast.For)}
+        for lpn in fors:
+            if lpn in gatherers:
+                continue
             it = fs.ta.terms_at.get(lpn.iter)
             src = collect_loop(fs, f, strip(it)) if it is not None else None
             if it is None or not any(call_is(x, f"{AC}._send_command_get_responses") for x in list(subterms(it)) + list(subterms(src or ()))):
